@@ -3,6 +3,7 @@ package rules
 import (
 	"fmt"
 	"go/token"
+	"go/types"
 
 	"golang.org/x/tools/go/ssa"
 
@@ -110,9 +111,18 @@ var ruleExtend = &core.Rule{ID: "R14.1", Min: 6,
 					app, ok := st.Val.(*ssa.Call)
 					okShape := false
 					why := "the new children slice is not [new node] followed by the old children: the extension must sit in front of the siblings that existed when it was registered"
-					if ok && core.IsBuiltin(&app.Call, "append") {
-						first, ok1 := app.Call.Args[0].(*ssa.Slice)
-						base, fld, ok2 := core.LoadOfField(app.Call.Args[1])
+					// append(first, rest...) or slices.Concat(first, rest): the same two operands
+					var a0, a1 ssa.Value
+					if ok && core.IsBuiltin(&app.Call, "append") && len(app.Call.Args) == 2 {
+						a0, a1 = app.Call.Args[0], app.Call.Args[1]
+					} else if ok && isStdGeneric(&app.Call, "slices.Concat") && len(app.Call.Args) == 1 {
+						if parts := literalElems(app.Call.Args[0]); len(parts) == 2 {
+							a0, a1 = parts[0], parts[1]
+						}
+					}
+					if a0 != nil {
+						first, ok1 := a0.(*ssa.Slice)
+						base, fld, ok2 := core.LoadOfField(a1)
 						if ok1 && ok2 && fld == tm.FChildren && base == ssa.Value(recv) {
 							if arr, ok := first.X.(*ssa.Alloc); ok {
 								n, good := 0, false
@@ -129,7 +139,7 @@ var ruleExtend = &core.Rule{ID: "R14.1", Min: 6,
 								okShape = n == 1 && good
 							}
 							// the old children must be read under the same lock region (no lost update)
-							if ld, ok := app.Call.Args[1].(*ssa.UnOp); ok {
+							if ld, ok := a1.(*ssa.UnOp); ok {
 								if !(ld.Block() == st.Block()) {
 									okShape, why = false, "old children are read in a different region than the store"
 								} else {
@@ -784,4 +794,60 @@ func ordinalOfBinOp(f *ssa.Function, bo *ssa.BinOp) int {
 		}
 	}
 	return k
+}
+
+// isStdGeneric: the call is to (an instance of) the generic library function name, e.g. "slices.Concat".
+func isStdGeneric(cc *ssa.CallCommon, name string) bool {
+	f := cc.StaticCallee()
+	if f == nil {
+		return false
+	}
+	if o := f.Origin(); o != nil {
+		f = o
+	}
+	return f.String() == name
+}
+
+// literalElems: v is the full slice of a fresh local array each element of
+// which is stored exactly once (a variadic argument list or a slice literal);
+// the stored values in index order, nil otherwise.
+func literalElems(v ssa.Value) []ssa.Value {
+	sl, ok := v.(*ssa.Slice)
+	if !ok || sl.Low != nil || sl.High != nil {
+		return nil
+	}
+	arr, ok := sl.X.(*ssa.Alloc)
+	if !ok {
+		return nil
+	}
+	at, ok := arr.Type().Underlying().(*types.Pointer).Elem().Underlying().(*types.Array)
+	if !ok {
+		return nil
+	}
+	out := make([]ssa.Value, at.Len())
+	for _, ref := range *arr.Referrers() {
+		switch x := ref.(type) {
+		case *ssa.IndexAddr:
+			i, isK := core.ConstInt(x.Index)
+			if !isK || i < 0 || i >= at.Len() {
+				return nil
+			}
+			for _, r2 := range *x.Referrers() {
+				st, isSt := r2.(*ssa.Store)
+				if !isSt || out[i] != nil {
+					return nil
+				}
+				out[i] = st.Val
+			}
+		case *ssa.Slice, *ssa.DebugRef:
+		default:
+			return nil
+		}
+	}
+	for _, e := range out {
+		if e == nil {
+			return nil
+		}
+	}
+	return out
 }
